@@ -52,6 +52,58 @@ fn rescore_queries() -> Vec<(Value, Option<Value>)> {
   ]
 }
 
+// --- long-postings family: one segment holds more than 128 / 256 postings of the rescore term, so
+// that window hits sit at every position of a long posting list (block boundaries included).
+
+/// Document i: `x` (tf 1 or 2: two original-score classes), the rescore term `r` (tf 1..3) unless
+/// i is in `skip`, and the sparse second rescore term `q` in every 7th document.
+fn long_world(n: usize, layout: &[usize], skip: &[usize]) -> World {
+  let docs: Vec<Value> = (0..n)
+    .map(|i| {
+      let mut words: Vec<&str> = vec!["x"; 1 + i % 2];
+      if !skip.contains(&i) {
+        words.extend(std::iter::repeat("r").take(1 + i % 3));
+      }
+      if i % 7 == 0 {
+        words.push("q");
+      }
+      json!({"_id": format!("d{i:03}"), "body": words.join(" "), "pop": 1 + (i % 3)})
+    })
+    .collect();
+  World::new("body+kw+pop+n+f", c09::schema_json(), docs).with_layout(layout.to_vec())
+}
+
+fn long_worlds() -> Vec<World> {
+  let mut out = Vec::new();
+  for skip in [&[][..], &[5, 200][..]] {
+    for n in [130usize, 256, 257, 300] {
+      out.push(long_world(n, &[n], skip));
+    }
+    out.push(long_world(300, &[200, 100], skip));
+  }
+  out
+}
+
+/// constant score for every document (ranking = document order) and a term with two score classes
+fn long_initial_queries() -> Vec<Value> {
+  vec![
+    json!({"type": "constant_score", "filter": {"I64Range": {"field": "pop", "min": 0, "max": 1000}}}),
+    json!({"type": "term", "field": "body", "value": "x"}),
+  ]
+}
+
+fn long_rescore_queries() -> Vec<(Value, Option<Value>)> {
+  vec![(json!({"type": "term", "field": "body", "value": "r"}), None), (json!({"type": "query_string", "query": "r q"}), None)]
+}
+
+/// windows ending just before / at / after the 128th and 256th hit, a small one, and everything
+fn long_windows(n: usize) -> Vec<usize> {
+  let mut w: Vec<usize> = vec![5, 127, 128, 129, 130, 255, 256, 257, 258, n, n + 5].into_iter().filter(|w| *w <= n + 5).collect();
+  w.sort();
+  w.dedup();
+  w
+}
+
 fn combine(mode: &str, orig: f32, resc: f32) -> f32 {
   match mode {
     "total" | "sum" => orig + resc,
@@ -76,11 +128,11 @@ struct Base {
 }
 
 fn base(reader: &IndexReader, init: &Value, resc: &(Value, Option<Value>)) -> Result<Base, String> {
-  let full = ranked(reader, json!({"query": init, "limit": 100, "execution": "bm25"}))?;
-  let own: BTreeMap<String, f32> = ranked(reader, json!({"query": resc.0, "limit": 100, "execution": "bm25"}))?.into_iter().collect();
+  let full = ranked(reader, json!({"query": init, "limit": 1000, "execution": "bm25"}))?;
+  let own: BTreeMap<String, f32> = ranked(reader, json!({"query": resc.0, "limit": 1000, "execution": "bm25"}))?.into_iter().collect();
   let mut rejects = BTreeSet::new();
   if let Some(nomin) = &resc.1 {
-    for (id, _) in ranked(reader, json!({"query": nomin, "limit": 100, "execution": "bm25"}))? {
+    for (id, _) in ranked(reader, json!({"query": nomin, "limit": 1000, "execution": "bm25"}))? {
       if !own.contains_key(&id) {
         rejects.insert(id);
       }
@@ -170,6 +222,15 @@ fn prefix_matches(got: &[(String, f32)], want: &[(String, f32)]) -> Result<(), S
     }
   }
   Ok(())
+}
+
+/// Failure texts of the long-postings family list hundreds of hits: the reason first, then the
+/// head of the listing.
+fn explain_first_difference(head: &str, full: &str) -> String {
+  match full.rfind(": ") {
+    Some(p) => format!("{} [{head} ...]", &full[p + 2..]),
+    None => full.to_string(),
+  }
 }
 
 #[derive(Clone)]
@@ -348,6 +409,62 @@ pub fn run(ctx: &Ctx) -> i32 {
   let worlds_done = AtomicU64::new(0);
   let timed_out = AtomicBool::new(false);
   let outcomes: Mutex<BTreeSet<String>> = Mutex::new(BTreeSet::new());
+  // ---- long-postings family (run first, own budget)
+  let ws_l = long_worlds();
+  let inits_l = long_initial_queries();
+  let rescs_l = long_rescore_queries();
+  let deadline_l = c09::budget(if quick { 15.0 } else { 120.0 });
+  let long_cases = AtomicU64::new(0);
+  let long_window_hits = AtomicU64::new(0);
+  let (done_l, capped_l) = c09::par_sweep(&ws_l, &rep, deadline_l, |wi, world| {
+    let idx = world.build();
+    let reader = idx.reader().expect("reader");
+    let info = WorldInfo::new(world);
+    let n = world.docs.len();
+    let mut local: BTreeSet<String> = BTreeSet::new();
+    for (ii, init) in inits_l.iter().enumerate() {
+      for (ri, resc) in rescs_l.iter().enumerate() {
+        let b = match base(&reader, init, resc) {
+          Ok(b) => b,
+          Err(e) => {
+            log.add(None, vec![0, wi as u64, ii as u64, ri as u64], || format!("{} documents, layout {:?} q={} rescore={}: reference searches failed: {e}", n, world.layout, init, resc.0), || json!({"engine": "inputmc-rescore/long", "world": world.to_json(), "query": init, "rescore_query": resc.0}));
+            continue;
+          }
+        };
+        for (wx, window) in long_windows(n).into_iter().enumerate() {
+          for (mi, mode) in MODES.iter().enumerate() {
+            let c = Case { init, resc, window, mode, limit: n };
+            evals.fetch_add(1, Ordering::Relaxed);
+            long_cases.fetch_add(1, Ordering::Relaxed);
+            match check_case(&reader, &info, &b, &c) {
+              Outcome::NotJudged => {
+                not_judged.fetch_add(1, Ordering::Relaxed);
+              }
+              Outcome::Held { rescored_in_window, rejected, reordered, .. } => {
+                if rescored_in_window >= 1 {
+                  nontrivial.fetch_add(1, Ordering::Relaxed);
+                  long_window_hits.fetch_add(rescored_in_window as u64, Ordering::Relaxed);
+                }
+                local.insert(format!("long-postings: held rescored{} rejected{} {}", if rescored_in_window > 128 { ">128" } else if rescored_in_window > 0 { "1..128" } else { "0" }, rejected.min(1), if reordered { "reordered" } else { "order-kept" }));
+              }
+              Outcome::Fail(sig, what) => {
+                local.insert(format!("long-postings: violation[{}]", sig.unwrap_or("-")));
+                let short: String = what.chars().take(600).collect();
+                log.add(
+                  sig,
+                  vec![0, wi as u64, ii as u64, ri as u64, wx as u64, mi as u64],
+                  || format!("{} documents d000.. (doc i: x^(1+i%2), r^(1+i%3){}, q if i%7=0), layout {:?} q={} rescore={{window_size:{}, score_mode:{}, query:{}}} limit={}: {}", n, if world.docs[5]["body"].as_str().unwrap_or("").contains('r') { "" } else { " except docs 5 and 200" }, world.layout, init, window, mode, resc.0, n, explain_first_difference(&short, &what)),
+                  || c.to_json(world),
+                );
+              }
+            }
+          }
+        }
+      }
+    }
+    outcomes.lock().extend(local);
+  });
+
   let (done, capped) = c09::par_sweep(&ws, &rep, deadline, |wi, world| {
     let idx = world.build();
     let reader = idx.reader().expect("reader");
@@ -362,7 +479,7 @@ pub fn run(ctx: &Ctx) -> i32 {
         let b = match base(&reader, init, resc) {
           Ok(b) => b,
           Err(e) => {
-            log.add(None, vec![wi as u64, ii as u64, ri as u64], || format!("{} q={} rescore={}: reference searches failed: {e}", world.describe(), init, resc.0), || json!({"engine": "inputmc-rescore", "world": world.to_json(), "query": init, "rescore_query": resc.0}));
+            log.add(None, vec![1, wi as u64, ii as u64, ri as u64], || format!("{} q={} rescore={}: reference searches failed: {e}", world.describe(), init, resc.0), || json!({"engine": "inputmc-rescore", "world": world.to_json(), "query": init, "rescore_query": resc.0}));
             continue;
           }
         };
@@ -394,7 +511,7 @@ pub fn run(ctx: &Ctx) -> i32 {
                 }
                 Outcome::Fail(sig, what) => {
                   local.insert(format!("violation[{}]", sig.unwrap_or("-")));
-                  log.add(sig, vec![wi as u64, ii as u64, ri as u64, li as u64, window as u64, mi as u64], || format!("{} q={} rescore={{window_size:{}, score_mode:{}, query:{}}} limit={}: {}", world.describe(), init, window, mode, resc.0, limit, what), || c.to_json(world));
+                  log.add(sig, vec![1, wi as u64, ii as u64, ri as u64, li as u64, window as u64, mi as u64], || format!("{} q={} rescore={{window_size:{}, score_mode:{}, query:{}}} limit={}: {}", world.describe(), init, window, mode, resc.0, limit, what), || c.to_json(world));
                 }
               }
             }
@@ -405,7 +522,7 @@ pub fn run(ctx: &Ctx) -> i32 {
     outcomes.lock().extend(local);
   });
   worlds_done.store(done, Ordering::Relaxed);
-  timed_out.store(capped, Ordering::Relaxed);
+  timed_out.store(capped || capped_l, Ordering::Relaxed);
   log.flush(&rep);
   rep.add_evals(evals.load(Ordering::Relaxed));
   let to = timed_out.load(Ordering::Relaxed);
@@ -418,6 +535,7 @@ pub fn run(ctx: &Ctx) -> i32 {
     "rule" => "a judged (world, initial query, rescore query, window, mode, limit) case is non-trivial when at least one hit of the window is matched by the rescore query (its score must change by the mode formula) or rejected by its min_score",
     "worlds" => ws.len(),
     "worlds_completed" => worlds_done.load(Ordering::Relaxed),
+    "long_postings_family" => json!({"worlds": ws_l.len(), "worlds_completed": done_l, "world_space": "130, 256, 257, 300 documents in one segment and 300 documents as 200+100; the rescore term r in every document / in every document but 5 and 200 (posting index != doc id)", "initial_queries": inits_l, "rescore_queries": rescs_l.iter().map(|r| r.0.clone()).collect::<Vec<_>>(), "windows": "5, 127..130, 255..258, n, n+5 (those <= n+5)", "score_modes": MODES.to_vec(), "limit": "n", "cases": long_cases.load(Ordering::Relaxed), "window_hits_whose_combined_score_was_recomputed": long_window_hits.load(Ordering::Relaxed)}),
     "initial_queries" => inits,
     "rescore_queries" => rescs.iter().map(|r| r.0.clone()).collect::<Vec<_>>(),
     "windows" => "0..=limit+5",
